@@ -320,6 +320,12 @@ class CCodeGenerator:
         if bits:
             mem = mem + (bits_to_bytes(bits),)
             bits.clear()
+
+        # Pad up to the size of the struct, the next element of an array
+        # of structs starts there:
+        filling = self.sizeof(typ) - self.mem_len(mem)
+        if filling > 0:
+            mem = mem + (bytes([0] * filling),)
         return mem
 
     def mem_len(self, mem):
